@@ -613,6 +613,77 @@ def outer_dense(ctx, da, scheds, extra_progs):
     return n
 
 
+def outer_libs(ctx, da, scheds):
+    """dense schedules over library code: harness/c02_libs.scm (compiled libraries: srfi 69/95/151/39/98, chibi io /
+    string / ast, scheme time).  The schedule starts after the imports (CHIBI_VERIF_GC_START, hook patch
+    fixes/hook-C02-gc-start.patch); the start index is measured: allocations of an imports-only run minus
+    allocations of an empty run, both counted in the allocation trace."""
+    try:
+        supported = "CHIBI_VERIF_GC_START" in open(os.path.join(da, "gc.c")).read()
+    except OSError:
+        supported = False
+    if not supported:
+        ctx.note("dense schedules over library code skipped: the tree has no CHIBI_VERIF_GC_START hook (fixes/hook-C02-gc-start.patch not applied)")
+        return 0
+    emb = B.cc_embed(da, HARNESS, os.path.join(da, "embed_c02"))
+    work = os.path.join(B.SCRATCH, "tmp_c02_work")
+    os.makedirs(work, exist_ok=True)
+    src = os.path.join(HERE, "..", "harness", "c02_libs.scm")
+    text = open(src).read()
+    imp = text[text.index("(import"):text.index("(define (show")]
+    fe, fi, tr = os.path.join(work, "libs-empty.scm"), os.path.join(work, "libs-imports.scm"), os.path.join(work, "libs.trace")
+    open(fe, "w").write("\n")
+    open(fi, "w").write(imp + "\n")
+    base_env = {"C02_NO_BOOT_GC": "1", "ASAN_OPTIONS": "detect_leaks=0:detect_odr_violation=0:exitcode=97"}
+
+    def go(path, extra, timeout=1500):
+        env = B.chibi_env(da, dict(base_env, **extra))
+        try:
+            r = subprocess.run([emb, path, "/dev/null"], capture_output=True, text=True, env=env, timeout=timeout)
+            return r.returncode, r.stdout, r.stderr
+        except subprocess.TimeoutExpired:
+            return "TIMEOUT", "", ""
+
+    def count(path):
+        go(path, {"CHIBI_VERIF_TRACE": tr})
+        n = sum(1 for l in open(tr) if l.startswith("A "))
+        os.unlink(tr)
+        return n
+    start = count(fi) - count(fe)
+    rc0, out0, err0 = go(src, {})
+    if rc0 != 0 or start <= 0:
+        ctx.broken("outer:baseline", "harness/c02_libs.scm fails without forced collections (rc=%s, start=%s): %s" % (rc0, start, err0[-300:]))
+        return 0
+    n = 0
+    for s, audit in scheds:
+        extra = {"CHIBI_VERIF_GC": s, "CHIBI_VERIF_GC_START": str(start)}
+        if audit:
+            extra["CHIBI_VERIF_AUDIT"] = "1"
+        rc, out, err = go(src, extra)
+        if rc == "TIMEOUT":
+            ctx.note("library run under %s timed out (inconclusive)" % s)
+            continue
+        n += 1
+        ctx.count(1, key=("libs", s), nontrivial=True)
+        replay = "%sCHIBI_VERIF_GC=%s CHIBI_VERIF_GC_START=%d C02_NO_BOOT_GC=1 LD_LIBRARY_PATH=%s CHIBI_MODULE_PATH=%s/lib CHIBI_IGNORE_SYSTEM_PATH=1 ASAN_OPTIONS=detect_leaks=0:detect_odr_violation=0 %s %s /dev/null" % (
+            "CHIBI_VERIF_AUDIT=1 " if audit else "", s, start, da, da, emb, src)
+        ma = re.search(r"VERIF-AUDIT FAIL gc=\d+: ([^\n]*)", err)
+        if ma:
+            ctx.violation("audit:" + ma.group(1).replace(" ", "-")[:60], input="harness/c02_libs.scm under %s from allocation %d" % (s, start),
+                          expected="closed, tiled heap with clear marks after every sweep", observed=ma.group(0), replay=replay)
+        if rc != rc0 or out != out0:
+            top = asan_top(err)
+            l0, l1 = out0.split("\n"), out.split("\n")
+            i = next((i for i, (x, y) in enumerate(zip(l0, l1)) if x != y), min(len(l0), len(l1)))
+            ctx.violation("schedule:libs:%s" % ("asan:" + top[0] + ":" + "/".join(top[1][:2]) if top else ("exit-status" if rc != rc0 else "output-differs")),
+                          input="harness/c02_libs.scm under CHIBI_VERIF_GC=%s from allocation %d" % (s, start),
+                          expected="same output and exit status as the unforced run",
+                          observed=("AddressSanitizer %s in %s" % (top[0], " <- ".join(top[1])) if top else "rc=%s; first differing line %d: %r vs %r" % (rc, i, l1[i:i + 1], l0[i:i + 1])),
+                          replay=replay)
+    ctx.sample(dict(kind="outer-libs", start_allocation=start, schedules=[s for s, a in scheds]))
+    return n
+
+
 def run(ctx):
     ctx.cov["rule"] = ("inner: one case = one collection (real sexp_mark + sexp_sweep) inside a generated workload (random mix of 20 snippets: deep "
                        "recursion, closures, vectors with trailing duplicates/immediates, call/cc + dynamic-wind, hash tables, bignums, ports, records "
@@ -674,7 +745,14 @@ def run(ctx):
         dscheds = ["every:2", "every:%d" % ctx.rng.choice([5, 6, 7]), "seed:%d:9" % ctx.rng.randrange(1, 1000), "at:" + ",".join(str(k0 + i) for i in range(64))]
     nd = outer_dense(ctx, da, dscheds, [])
     t4 = time.time()
-    ctx.note("timing: inner %d collections %.0fs; asan build %.0fs; outer %d runs %.0fs; dense %d runs %.0fs" % (nc, t1 - t0, t2 - t1, nr, t3 - t2, nd, t4 - t3))
+    if ctx.thorough:
+        lscheds = [("every:7", False), ("seed:%d:11" % ctx.rng.randrange(1, 1000), False), ("every:23", True)]
+    else:
+        lscheds = [("every:%d" % ctx.rng.choice([53, 61, 67]), False)]
+    nl = outer_libs(ctx, da, lscheds)
+    t5 = time.time()
+    ctx.note("timing: inner %d collections %.0fs; asan build %.0fs; outer %d runs %.0fs; dense %d runs %.0fs; library dense %d runs %.0fs" % (
+        nc, t1 - t0, t2 - t1, nr, t3 - t2, nd, t4 - t3, nl, t5 - t4))
     _tiny_heap_probe(ctx, da)
     ctx.assume("weak references, ephemerons and finalizers are outside this model (C16); the free list and heap shape are C10's")
     ctx.assume("the root-registration discipline of C callers (sexp_gc_preserve) is not a theorem: it is explored by the forced-collection schedules only")
